@@ -892,6 +892,34 @@ def _wait_ready_part(e: Engine, rep: Report, due_kind):
                       '(first due time - now): it wakes too late or too '
                       'early' % ast.unparse(a), loc=n.loc(),
                       reason='timeout = first_timestamp - now')
+            # `now` was sampled by the caller: it is only as fresh as the
+            # path from the entry to this wait is short - an unbounded wait
+            # on the way makes the timeout late by however long it lasted
+            stale = [w for w in g.nodes if w.kind == 'call' and w is not n
+                     and e.call_name(w) in ('wait', 'sleep', 'get', 'join')
+                     and not w.ast.args and not w.ast.keywords]
+            pth = None
+            for w in stale:
+                p1 = dataflow.find_path(
+                    g, g.entry, lambda x, w=w: x is w,
+                    edge_ok=lambda a, l, s2: not isinstance(l, tuple))
+                p2 = dataflow.find_path(
+                    g, w, lambda x: x is n,
+                    edge_ok=lambda a, l, s2: not isinstance(l, tuple)) \
+                    if p1 else None
+                if p1 and p2:
+                    pth = p1 + p2[1:]
+                    break
+            rep.evaluations += 1
+            rep.check(pth is None, 'Q6', where,
+                      '`now` is still current when the sleep is computed',
+                      'an unbounded wait lies between the entry of '
+                      '_wait_ready (where `%s` was current) and the timed '
+                      'wait computed from it: after an idle period of '
+                      'length d the first due entry is attempted d seconds '
+                      'late' % ctx.func.params[1], loc=n.loc(),
+                      reason='no untimed wait on the way to the timed one',
+                      witness=dataflow.render_path(pth, 12) if pth else None)
             # the due predicate of _check_ready and the sleep predicate
             # here leave no gap: an entry that is not dispatched is slept
             # for
